@@ -26,7 +26,7 @@ PROPS = {
         streams=[stream('peq', 'items:PartialEq,Eq', force=['PartialEq'], kinds=('struct', 'enum'))],
         k2=['eq'], k2_n=(80, 800),
         k2_also=[('generics', 'PartialEq', (40, 300))],
-        direct=[('rejections', (1500, 15000), dict(pool=['PartialEq', 'Eq'] + ['Clone', 'Debug'], must=['PartialEq'], key='c02r'))],
+        direct=[('rejections', (1500, 15000), dict(pool=['PartialEq', 'Eq'] + ['Clone', 'Debug'], must=[('PartialEq', 'PartialEq', 'Eq')], key='c02r'))],
         level_text='Theorems (closed under the global context) that the emitted `eq` of every struct / enum computes field-wise equality over the non-ignored fields, for all type definitions, attribute assignments, values and field-type behaviours; the model is tied to /repo by K1 (token equality of the PartialEq/Eq impls on generated inputs) and the real compiled code is compared with an independent oracle on enumerated value pairs (K2).',
         level_note='Trusted: Coq kernel; the hand-written model (tied by K1 on sampled inputs, not proved equal to the Rust source); Sem/Interp.v as the meaning of the emitted Rust subset; rustc as oracle in K2.',
     ),
@@ -37,7 +37,7 @@ PROPS = {
                  stream('pord', 'items:PartialOrd,Ord', force=['PartialOrd'], kinds=('struct', 'enum'))],
         k2=['ord'], k2_n=(100, 800),
         k2_also=[('generics', 'PartialOrd', (40, 300))],
-        direct=[('rejections', (1500, 15000), dict(pool=['PartialOrd', 'Ord'] + ['Clone', 'Debug'], must=['PartialOrd'], key='c03r'))],
+        direct=[('rejections', (1500, 15000), dict(pool=['PartialOrd', 'Ord'] + ['Clone', 'Debug'], must=[('PartialOrd', 'Ord')], key='c03r'))],
     ),
     'C04': dict(
         title='Enum variants order by declared discriminant, never by memory layout',
@@ -45,7 +45,7 @@ PROPS = {
         streams=[stream('ordenum', 'items:PartialOrd,Ord', force=['Ord'], kinds=('enum',), n=(1000, 20000)),
                  stream('pordenum', 'items:PartialOrd,Ord', force=['PartialOrd'], kinds=('enum',), n=(1000, 20000))],
         k2=['ordlayout'], k2_n=(100, 800),
-        direct=[('c04', (1, 1))],
+        direct=[('c04', (1, 1)), ('rejections', (1500, 15000), dict(pool=['PartialOrd', 'Ord', 'PartialEq', 'Eq'], must=[('PartialOrd', 'Ord')], kinds=('enum',), key='c04r'))],
     ),
     'C05': dict(
         title='Hash input is a function of the variant and non-ignored fields only',
@@ -94,7 +94,7 @@ PROPS = {
                  stream('derefmut', 'items:Deref,DerefMut', force=['Deref', 'DerefMut'], kinds=('struct', 'enum'), n=(800, 15000))],
         k2=['deref'], k2_n=(150, 1200),
         k2_also=[('generics', 'Deref', (40, 300))],
-        direct=[('rejections', (1500, 15000), dict(pool=['Deref', 'DerefMut'] + ['Clone', 'Debug'], must=['Deref'], key='c09r'))],
+        direct=[('rejections', (1500, 15000), dict(pool=['Deref', 'DerefMut'] + ['Clone', 'Debug'], must=[('Deref', 'Deref', 'DerefMut')], key='c09r'))],
     ),
     'C10': dict(
         title='Into returns the designated field for every requested target type',
